@@ -229,4 +229,30 @@ theorem u256_mul_exact (u v : U256) (hu : u.WF) (hv : v.WF) :
     U256.mul u v = if u.toNat * v.toNat < W ^ 4 then .ok (U256.ofNat (u.toNat * v.toNat)) else .error () :=
   U256.mul_spec u v hu hv
 
+/-! ## `Uint256.Div` -/
+
+/-- for `v ≠ 0` the shift-and-subtract loops terminate within their fuel (`≠ none`), neither `Sub` nor
+`Add` panics, and the result is the exact quotient.  Proof in `Lemmas/FpDiv.lean`
+(`U256.divInner_spec`, `U256.divOuter_spec`). -/
+theorem u256_div_exact (u v : U256) (hu : u.WF) (hv : v.WF) (hv0 : v.toNat ≠ 0) :
+    U256.div u v = some (.ok (U256.ofNat (u.toNat / v.toNat))) := by
+  obtain ⟨q, h, hq, hval⟩ := U256.div_spec u v hu hv hv0
+  rw [h, U256.eq_ofNat_toNat hq, hval]
+
+/-- same statement in "quotient" form -/
+theorem u256_div_exact' (u v : U256) (hu : u.WF) (hv : v.WF) (hv0 : v.toNat ≠ 0) :
+    ∃ q, U256.div u v = some (.ok q) ∧ q.WF ∧ q.toNat = u.toNat / v.toNat :=
+  U256.div_spec u v hu hv hv0
+
+/-- division by zero is the only panic -/
+theorem u256_div_zero (u v : U256) (hv : v.WF) (hv0 : v.toNat = 0) : U256.div u v = some (.error ()) := by
+  unfold U256.div
+  rw [if_pos ((U256.isZero_iff v hv).mpr hv0)]
+
+set_option maxRecDepth 100000 in
+/-- hypotheses satisfiable on a non-trivial pair (both loops run): `(2^128 + 5) / (2^64 + 3)` -/
+example : U256.WF ⟨0, 1, 0, 5⟩ ∧ U256.WF ⟨0, 0, 1, 3⟩ ∧ U256.toNat ⟨0, 0, 1, 3⟩ ≠ 0 ∧
+    U256.div ⟨0, 1, 0, 5⟩ ⟨0, 0, 1, 3⟩ = some (.ok ⟨0, 0, 0, 18446744073709551613⟩) :=
+  ⟨by decide, by decide, by decide, rfl⟩
+
 end ObiVerif.Props.C20
